@@ -422,3 +422,15 @@ def contracts():
     for c in extra:
         c.prop = PROP
     return _c15_base2() + extra
+
+
+# the serialization entry points act on the instance whenever there is one, whatever its truth value
+# (verified for C12)
+_c15_base_soc = contracts
+
+
+def contracts():
+    from contracts import c12 as _c12
+    c = _c12.self_or_cls_contract()
+    c.prop = "C15"
+    return _c15_base_soc() + [c]
